@@ -367,6 +367,33 @@ def state_param_regular(ctx, F, fn, pi, depth=0):
 
 # ---------------------------------------------------------------- main
 
+_UNIT = {}
+
+
+def unit_step_counter(prog, an, lf):
+    """every store to the field (adt, name) anywhere in the crate is a constant or the field itself plus / minus one: the value can
+    only be reached by that many events, which is what makes `+ 1` on 64 bits an event counter and not data"""
+    if lf in _UNIT:
+        return _UNIT[lf]
+    from .paths import field_stores
+    adt, name = lf
+    res = True
+    n = 0
+    for g in prog.crate_fns(FW):
+        if not g.has_body or g.derived:
+            continue
+        for (pe, v, site) in field_stores(an.get(g), name, adt.split('::')[-1]):
+            n += 1
+            v2 = strip_casts(v)
+            unit = num(v2) is not None or (isinstance(v2, tuple) and v2 and v2[0] == 'bin' and v2[1] in ('Add', 'Sub') and is_field(v2[2], name) and is_const(v2[3], 1)) or \
+                ((is_call(v2, '::saturating_sub') or is_call(v2, '::saturating_add')) and len(v2[2]) == 2 and is_field(v2[2][0], name) and is_const(v2[2][1], 1)) or \
+                (isinstance(v2, tuple) and v2 and v2[0] == 'agg')
+            if not unit:
+                res = False
+    _UNIT[lf] = res and n > 0
+    return _UNIT[lf]
+
+
 def check_C01(ctx, rep):
     prog, an = ctx.prog, ctx.an
     F = fw_fns(prog)
@@ -460,6 +487,14 @@ def check_C01(ctx, rep):
                             cls, ok = 'ARITH-COUNTER', True
                         elif op == 'AddWithOverflow' and any(is_field(l, cf) for cf in cnt_fields) and any(is_field(r, cf) for cf in cnt_fields):
                             cls, ok = 'ARITH-COUNTER-SUM', True
+                        elif op == 'AddWithOverflow' and is_const(r, 1) and isinstance(r, tuple) and r[0] == 'const' and r[1] in ('usize', 'u64') and \
+                                last_field(l) is not None and last_field(l)[0].split('::')[-1] in ('Framework', 'MachineRuntime') and \
+                                unit_step_counter(prog, an, last_field(l)):
+                            # a 64-bit counter of the framework's own state stepped by one: the class of the four packet counters
+                            cls, ok = 'ARITH-COUNTER', True
+                        elif op == 'AddWithOverflow' and is_const(r, 1) and vi.valid(fn, fa, l, at, assume=False):
+                            # index + 1 for an index known to be below a vector length
+                            cls, ok = 'ARITH-INDEX', True
                         elif op == 'SubWithOverflow' and is_const(r, 1) and is_field(l, 'state_limit', 'MachineRuntime'):
                             cls = 'ARITH-GUARDED'
                             st = pf.at(b, len(bb['s']))
